@@ -7,7 +7,7 @@ PROPS["C15"] = dict(
     coq_targets=["Mt/Check.vo"],
     check_module="Mt.Check",
     check_fn="check_case",
-    streams=[dict(name="main", quick=320, thorough=8000)],
+    streams=[dict(name="main", quick=320, thorough=8000), dict(name="abci", quick=48, thorough=1200)],
     coq_shard=20,
     coq_case_timeout=3600,
     rule="histories of 10-31 (thorough: 10-69) steps = issue-class / mint (new token or more of an existing one) / edit / "
@@ -15,7 +15,9 @@ PROPS["C15"] = dict(
          "boundaries; amounts over the whole uint64 range: small, log-uniform, 2^63, 2^64-1, exactly the room left below "
          "2^64-1 and one more, exactly what is held and one more; ~8% malformed (blank/unknown ids, bad addresses, amount 0); "
          "non-trivial = on some class a non-owner attempted mint/edit/hand-over and its owner succeeded with one; "
-         "distinct = by hash of the history",
+         "distinct = by hash of the history; stream 'abci' executes histories of the same generator through the real ABCI surface "
+         "(InitChain, FinalizeBlock with one SIGNED transaction per message through the ante handlers, Commit; observations on the "
+         "committed state; a message whose sender is not an address cannot be signed and counts as rejected)",
     codes={1: "mt.sum-of-balances-differs-from-supply", 2: "mt.transfer-not-exact", 3: "mt.burn-not-exact",
            4: "mt.mint-not-exact-or-wrapped", 5: "mt.authority", 6: "mt.id-reused-or-object-lost",
            7: "mt.step-changed-what-it-must-not"},
